@@ -32,7 +32,7 @@ func runC18(w *mon.Worker) {
 	mon.SetMaxSleep(100 * time.Microsecond)
 	mon.SetProb(0.3, verifhook.ConcWorkerLock)
 	mon.SetProb(0.15, verifhook.BcastEnter, verifhook.BcastExit)
-	for i := 0; i < w.Share(w.Scale(12000, 300000)); i++ {
+	for i := 0; i < w.Share(w.Scale(12000, 1200000)); i++ {
 		w.Case("queue", nil, concCase)
 	}
 	mon.ClearProb()
